@@ -10,6 +10,7 @@ import (
 	"fmt"
 	"os"
 	"runtime"
+	"runtime/debug"
 	"sort"
 	"strconv"
 	"strings"
@@ -31,21 +32,30 @@ type group struct {
 	Twin     *scenario
 	Variants []*scenario
 	Weight   int  // measured executions at bounds (1,2,3), for load balancing only
-	Big      bool // three subscribers: the thorough tier lowers the total bound by one
+	Big      bool // three subscribers, or a very long / near-duplicate scenario: the thorough tier explores it with the total bound lowered by one
 }
 
 type bounds struct{ pre, sw, tot int }
 
-type candidate struct {
+// witness = one violating execution; candidate = the cheapest witnesses of one
+// fingerprint (a few, so that one execution that was disturbed from outside -
+// runtime preemption on an overloaded machine - cannot shadow the reproducible ones).
+type witness struct {
 	f       finding
 	sc      *scenario
 	b       bounds
 	choices []int
 	labels  []string
 	cost    int
-	count   int64
 	trace   string
 }
+
+type candidate struct {
+	best  []witness
+	count int64
+}
+
+const keepWitnesses = 3
 
 type explorerState struct {
 	run       *vk.Run
@@ -56,6 +66,7 @@ type explorerState struct {
 	order     []string
 	progress  bool
 	replaying bool
+	sinceGC   int
 }
 
 // mutexDeadlock: threads of the code under test are parked on a modelled mutex
@@ -82,12 +93,13 @@ func (es *explorerState) abortOnDeadlock(sc *scenario, x *sched.Exec, fs []findi
 	}
 	for _, fp := range es.order {
 		c := es.cands[fp]
-		if c.sc == nil {
+		if len(c.best) == 0 {
 			continue
 		}
-		es.run.Violate(vk.Violation{Clause: c.f.Clause, Site: c.f.Site, Class: c.f.Class,
-			Detail: fmt.Sprintf("scenario %s: %s\nschedule %v (not re-run: exploration aborted by a deadlocked execution)\ntrace: %s", c.sc.Name, c.f.Detail, c.choices, c.trace),
-			Input:  map[string]any{"scenario": c.sc.Name, "choices": c.choices, "bounds": []int{c.b.pre, c.b.sw, c.b.tot}}})
+		w := c.best[0]
+		es.run.Violate(vk.Violation{Clause: w.f.Clause, Site: w.f.Site, Class: w.f.Class,
+			Detail: fmt.Sprintf("scenario %s: %s\nschedule %v (not re-run: exploration aborted by a deadlocked execution)\ntrace: %s", w.sc.Name, w.f.Detail, w.choices, w.trace),
+			Input:  map[string]any{"scenario": w.sc.Name, "choices": w.choices, "bounds": []int{w.b.pre, w.b.sw, w.b.tot}}})
 	}
 	es.run.Eval(1)
 	es.run.Cap("exploration of this shard stopped at a deadlocked execution of " + sc.Name + " (threads blocked on a mutex for ever cannot be torn down in-process)")
@@ -121,7 +133,7 @@ func (es *explorerState) buildScenario(sc *scenario, twin map[int]map[string]boo
 					if collect[i] == nil {
 						collect[i] = map[string]bool{}
 					}
-					collect[i][st.outcome().key()] = true
+					collect[i][st.outcome().refKey(sc.faulty())] = true
 				}
 			}
 			if mutexDeadlock(inst.drain) && !es.replaying {
@@ -140,6 +152,11 @@ func (es *explorerState) buildScenario(sc *scenario, twin map[int]map[string]boo
 					counts["leftover_goroutines"] += int64(left)
 				}
 				inst = nil
+				// the collector runs only here, between executions (see TestCheck)
+				if es.sinceGC++; es.sinceGC >= 32 {
+					es.sinceGC = 0
+					runtime.GC()
+				}
 			}
 		},
 	}
@@ -174,18 +191,21 @@ func (es *explorerState) explore(sc *scenario, twin, collect map[int]map[string]
 			cost := (pre+sw+dev)*10000 + len(x.Points)
 			c, ok := es.cands[f.fp()]
 			if !ok {
-				c = &candidate{cost: 1 << 60}
+				c = &candidate{}
 				es.cands[f.fp()] = c
 				es.order = append(es.order, f.fp())
 			}
 			if record {
 				c.count++
 			}
-			if cost < c.cost {
-				c.f, c.sc, c.cost, c.b = f, sc, cost, es.b
-				c.choices = append([]int(nil), x.Choices...)
-				c.labels = x.Trace()
-				c.trace = strings.Join(x.Trace(), " > ")
+			if len(c.best) < keepWitnesses || cost < c.best[len(c.best)-1].cost {
+				w := witness{f: f, sc: sc, b: es.b, cost: cost, choices: append([]int(nil), x.Choices...), labels: x.Trace()}
+				w.trace = strings.Join(w.labels, " > ")
+				c.best = append(c.best, w)
+				sort.SliceStable(c.best, func(a, b int) bool { return c.best[a].cost < c.best[b].cost })
+				if len(c.best) > keepWitnesses {
+					c.best = c.best[:keepWitnesses]
+				}
 			}
 		}
 	}
@@ -208,8 +228,8 @@ func (es *explorerState) explore(sc *scenario, twin, collect map[int]map[string]
 	if st.Capped {
 		run.Cap("scenario " + sc.Name + " stopped by the internal deadline")
 	}
-	if st.Divergences > 0 {
-		run.Cap(fmt.Sprintf("%d replay divergences in %s (subtrees skipped)", st.Divergences, sc.Name))
+	if ex.SkippedSubtrees > 0 {
+		run.Cap(fmt.Sprintf("%d subtrees of %s skipped after repeated replay divergence", ex.SkippedSubtrees, sc.Name))
 	}
 	if es.progress {
 		var ks []string
@@ -219,7 +239,7 @@ func (es *explorerState) explore(sc *scenario, twin, collect map[int]map[string]
 		sort.Strings(ks)
 		fmt.Printf("== %s: %d executions, outcomes:\n%s\n", sc.Name, st.Executions, strings.Join(ks, "\n"))
 	}
-	return !st.Capped && st.Divergences == 0
+	return !st.Capped && ex.SkippedSubtrees == 0
 }
 
 // reference explores the twin scenario of a group (nobody cancels) and, for
@@ -261,50 +281,57 @@ func (es *explorerState) reference(g *group, twinSets map[string]map[int]map[str
 func (es *explorerState) confirm(twinFor func(sc *scenario) map[int]map[string]bool) {
 	for _, fp := range es.order {
 		c := es.cands[fp]
-		if c.sc == nil {
-			continue
-		}
-		ok := 0
-		diverged := ""
-		for i := 0; i < 5; i++ {
-			counts := map[string]int64{}
-			scn, last := es.buildScenario(c.sc, twinFor(c.sc), nil, counts)
-			x := es.s.RunOne(c.choices, c.labels, func() { scn.Body(es.s) })
-			hit := false
-			if x.Diverged == "" {
-				scn.Check(es.s, x)
-				fs := *last
-				for _, p := range es.s.Panics {
-					fs = append(fs, finding{Clause: "no panic", Site: "panic", Class: "any", Detail: p})
-				}
-				for _, f := range fs {
-					if f.fp() == fp || (f.Clause == "no panic" && c.f.Clause == "no panic") {
-						hit = true
+		confirmed := false
+		var notes []string
+		for _, w := range c.best {
+			ok := 0
+			diverged := ""
+			for i := 0; i < 5; i++ {
+				counts := map[string]int64{}
+				scn, last := es.buildScenario(w.sc, twinFor(w.sc), nil, counts)
+				x := es.s.RunOne(w.choices, w.labels, func() { scn.Body(es.s) })
+				hit := false
+				if x.Diverged == "" {
+					scn.Check(es.s, x)
+					fs := *last
+					for _, p := range es.s.Panics {
+						fs = append(fs, finding{Clause: "no panic", Site: "panic", Class: "any", Detail: p})
 					}
+					for _, f := range fs {
+						if f.fp() == fp || (f.Clause == "no panic" && w.f.Clause == "no panic") {
+							hit = true
+						}
+					}
+				} else {
+					diverged = x.Diverged
+					es.run.Count("divergences_while_confirming", 1)
 				}
-			} else {
-				diverged = x.Diverged
+				es.s.Finish()
+				scn.Cleanup()
+				synctest.Wait()
+				if hit {
+					ok++
+				}
 			}
-			es.s.Finish()
-			scn.Cleanup()
-			synctest.Wait()
-			if hit {
-				ok++
+			if ok != 5 {
+				notes = append(notes, fmt.Sprintf("%s schedule %v reproduced %d of 5 times %s", w.sc.Name, w.choices, ok, diverged))
+				continue
 			}
+			if c.count == 0 {
+				c.count = 1
+			}
+			v := vk.Violation{Clause: w.f.Clause, Site: w.f.Site, Class: w.f.Class,
+				Detail: fmt.Sprintf("scenario %s: %s\nschedule %v (cost %d deviations from the default schedule, reproduced 5/5)\ntrace: %s", w.sc.Name, w.f.Detail, w.choices, w.cost/10000, w.trace),
+				Input:  map[string]any{"scenario": w.sc.Name, "choices": w.choices, "bounds": []int{w.b.pre, w.b.sw, w.b.tot}}}
+			for n := int64(0); n < c.count; n++ {
+				es.run.Violate(v)
+			}
+			confirmed = true
+			break
 		}
-		if ok != 5 {
+		if !confirmed && len(c.best) > 0 {
 			es.run.Count("unconfirmed_violations", 1)
-			es.run.Cap(fmt.Sprintf("a violation (%s / %s) of %s reproduced only %d of 5 times from its schedule %v %s", c.f.Clause, c.f.Site, c.sc.Name, ok, c.choices, diverged))
-			continue
-		}
-		if c.count == 0 {
-			c.count = 1
-		}
-		v := vk.Violation{Clause: c.f.Clause, Site: c.f.Site, Class: c.f.Class,
-			Detail: fmt.Sprintf("scenario %s: %s\nschedule %v (cost %d deviations from the default schedule, reproduced 5/5)\ntrace: %s", c.sc.Name, c.f.Detail, c.choices, c.cost/10000, c.trace),
-			Input:  map[string]any{"scenario": c.sc.Name, "choices": c.choices, "bounds": []int{c.b.pre, c.b.sw, c.b.tot}}}
-		for n := int64(0); n < c.count; n++ {
-			es.run.Violate(v)
+			es.run.Cap(fmt.Sprintf("a violation (%s / %s) did not reproduce 5 of 5 times from any of its %d cheapest schedules: %s", c.best[0].f.Clause, c.best[0].f.Site, len(c.best), strings.Join(notes, "; ")))
 		}
 	}
 }
@@ -377,6 +404,11 @@ func plan(groups []*group, nshards int, thorough bool) [][]unit {
 		out[best] = append(out[best], u)
 		load[best] += u.w + 1
 	}
+	// within a shard the light units run first: when the deadline cuts a run
+	// short (overloaded machine) it cuts into the largest group, not the small ones
+	for _, us := range out {
+		sort.SliceStable(us, func(a, b int) bool { return us[a].w < us[b].w })
+	}
 	return out
 }
 
@@ -398,10 +430,15 @@ func TestCheck(t *testing.T) {
 	run.Bound("handover_bound", b.sw)
 	run.Bound("deviation_bound", 1)
 	run.Bound("total_bound(preemptions+handovers+deviations)", b.tot)
-	run.Bound("total_bound_three_subscribers", b.tot-vk.Pick(run, 0, 1))
+	run.Bound("total_bound_big_groups(three subscribers, W04-W07, W14, W16, W18, S02, M01)", b.tot-vk.Pick(run, 0, 1))
 	run.Bound("max_time_advances", 2)
 	run.Bound("max_subscribers", vk.Pick(run, 2, 3))
 	synctest.Test(t, func(t *testing.T) {
+		// No concurrent garbage collection while an execution runs: mark assists and
+		// background workers park and reorder goroutines inside a step, which is
+		// scheduling the explorer does not own. The collector is run explicitly
+		// between executions instead.
+		debug.SetGCPercent(-1)
 		s := sched.New()
 		s.MaxSteps = 3000
 		install(s)
